@@ -756,6 +756,9 @@ def runPload (r : Report) (s : Section) (l : Line) (fs : Fields) (workers : Stri
       else if i % 3 = 1 ∨ ¬ tomlOk then eitherF32 (fun o => printRes (loadYamlO o fs (embY j'))) oc (obs? l.obs s!"FL{i}")
       else eitherF32 (fun o => tomlFront j' (fun t => printRes (loadTomlO o fs t))) oc (obs? l.obs s!"FL{i}")
     r := ck r s!"FL{i}" fl
+    -- MO: mapping.UnmarshalJsonBytes with the option set (5 i + 1) mod 16 (different from document to document)
+    let om : Opts := { optsOfBits ((i * 5 + 1) % 16) with env := envOfTy (.struct fs) }
+    r := ck r s!"MO{i}" (eitherF32 (fun o => printRes (unmarshalWith o fs j)) om (obs? l.obs s!"MO{i}"))
     if docHasDollar j then r := r.addCover (if useEnv then "pload-file-env-expanded" else "pload-file-env-literal")
     r := r.addCover ("pload-doc-" ++ classOf (g s!"J{i}"))
     if l.obs.any (fun t => t.endsWith "=panic") then
